@@ -12,9 +12,9 @@ for log in sys.argv[1:]:
     cur = None
     for line in open(log, errors='replace'):
         line = line.rstrip('\n')
-        m = re.match(r'== (/tmp/mut(2?)-(C\d+)/(m\d+))', line)
+        m = re.match(r'== (/tmp/mut(\d?)-(C\d+)/(m\d+))', line)
         if m:
-            cur = {'dir': m.group(1), 'id': f'{m.group(3)}-' + ('w2' if m.group(2) else '') + m.group(4), 'suite': None, 'demo_with': [], 'demo_without': [], 'checks': {}}
+            cur = {'dir': m.group(1), 'id': f'{m.group(3)}-' + ('w' + m.group(2) if m.group(2) else '') + m.group(4), 'suite': None, 'demo_with': [], 'demo_without': [], 'checks': {}}
             entries[cur['id']] = cur
             continue
         if cur is None:
